@@ -132,6 +132,9 @@ class Ctx:
 
     def make(self, c):
         hf = make_hash(self.p["fp"], fmap(c["alt"]))
+        if self.p.get("er"):  # sized by error rate instead of finger_size
+            return self.cls.init_error_rate(self.p["er"], capacity=c["cap"], bucket_size=self.p["bs"], max_swaps=self.p["ms"],
+                                            expansion_rate=self.p.get("rate", 2), auto_expand=c["auto"], hash_function=hf)
         return self.cls(capacity=c["cap"], bucket_size=self.p["bs"], max_swaps=self.p["ms"], expansion_rate=self.p.get("rate", 2),
                         auto_expand=c["auto"], finger_size=self.p.get("finger_size", 4), hash_function=hf)
 
@@ -295,9 +298,16 @@ class Ctx:
         bio = io.BytesIO()
         f.export(bio)
         t.check(data == data2 == bio.getvalue(), "C05", "C05.channels_agree.cuckoo", ENGINE, rp2, sig)
-        loaded = [("frombytes", self.cls.frombytes(data, hash_function=hf)), ("filepath", self.cls(filepath=path, hash_function=hf))]
+        if self.p.get("er"):
+            loaded = [("frombytes_error_rate", self.cls.frombytes(data, error_rate=self.p["er"], hash_function=hf)),
+                      ("load_error_rate", self.cls.load_error_rate(self.p["er"], path, hash_function=hf))]
+        else:
+            loaded = [("frombytes", self.cls.frombytes(data, hash_function=hf)), ("filepath", self.cls(filepath=path, hash_function=hf))]
         for name, g in loaded:
-            g.fingerprint_size = self.p.get("finger_size", 4)
+            if not self.p.get("er"):
+                g.fingerprint_size = self.p.get("finger_size", 4)
+            t.check(g.fingerprint_size_bits == f.fingerprint_size_bits and g.error_rate == f.error_rate, "C05", "C05.fingerprint_width.cuckoo", ENGINE,
+                    lambda: rp2(channel=name, loaded_bits=g.fingerprint_size_bits, original_bits=f.fingerprint_size_bits), dict(sig, channel=name))
             o2 = self.observe(g)
             s2 = dict(sig, channel=name)
             t.check(o2["check"] == obs["check"] and o2["in"] == obs["in"], "C05", "C05.queries.cuckoo", ENGINE, lambda: rp2(loaded=o2, channel=name), s2)
@@ -334,7 +344,7 @@ def profiles(tier, light=False):
             P.append(dict(fp={"a": 2, "b": 3, "e": 2, "z": 0}, altvals=[0, 1, 2, 3], bs=1, ms=2, counting=counting, cap0s=[1, 2], autos=[False, True],
                           maxcap=4, maxdepth=4, maxout=2, nparts=2))
             P.append(dict(fp={"a": 1, "b": 2, "c": 3, "d": 5}, altvals=[0, 1], bs=2, ms=2, counting=counting, cap0s=[1], autos=[False, True],
-                          maxcap=2, maxdepth=5, maxout=2, nparts=2))
+                          maxcap=2, maxdepth=5, maxout=2, nparts=2, er=0.001 if counting else 0.02))
     else:
         for counting in (False, True):
             P.append(dict(fp={"a": 2, "b": 3, "c": 4, "e": 2, "z": 0}, altvals=[0, 1, 3], bs=1, ms=3, counting=counting, cap0s=[1, 2], autos=[False, True],
@@ -342,7 +352,9 @@ def profiles(tier, light=False):
             P.append(dict(fp={"a": 1, "b": 2, "c": 3, "d": 5, "e": 6}, altvals=[0, 1, 2, 3], bs=2, ms=2, counting=counting, cap0s=[1, 2], autos=[False, True],
                           maxcap=4, maxdepth=6, maxout=2, nparts=16))
             P.append(dict(fp={"a": 1, "b": 2, "c": 3, "d": 4, "e": 5, "f": 7, "g": 9}, altvals=[0, 1], bs=3, ms=2, counting=counting, cap0s=[1], autos=[False, True],
-                          maxcap=2, maxdepth=8, maxout=1, nparts=8))
+                          maxcap=2, maxdepth=8, maxout=1, nparts=8, er=0.003))
+            P.append(dict(fp={"a": 1, "b": 2, "c": 3}, altvals=[0, 1], bs=8, ms=2, counting=counting, cap0s=[1], autos=[True],
+                          maxcap=2, maxdepth=4, maxout=2, nparts=1, er=0.001))
     if light and tier == "quick":
         P = [dict(p, altvals=p["altvals"][:2] if len(p["fp"]) > 3 and p["bs"] == 1 else p["altvals"]) for p in P]
     return P
